@@ -170,7 +170,7 @@ theorem stepRemove_sub (mh me : Metric V) (h : MetricSub mh me) (vs : List Model
     · refine ⟨h.decl, h.single, h.wf, ?_⟩
       intro k hk
       simp only at hk
-      rw [PromVerif.Props.C01.tlookup_terase] at hk
+      rw [PromVerif.Lemmas.Metrics.tlookup_terase] at hk
       split at hk
       · cases hk
       · exact h.keys k hk
